@@ -635,6 +635,12 @@ fn spawn_async_ao_list_in_task'''),
         ('plain-operator-strips-tabs', 'brush-parser/src/parser/peg.rs', "                    remove_tabs: false,", "                    remove_tabs: true,"),
         ('backslash-in-the-delimiter-does-not-count-as-quoting', 'brush-parser/src/parser/peg.rs', [("specific_operator(\"<<\") here_tag:here_tag() doc:[_] closing_tag:here_tag() {\n                let requires_expansion = !here_tag.to_str().contains(['\\'', '\"', '\\\\']);", "specific_operator(\"<<\") here_tag:here_tag() doc:[_] closing_tag:here_tag() {\n                let requires_expansion = !here_tag.to_str().contains(['\\'', '\"', '\"']);")]),
     ],
+    'U27d': [
+        ('here-documents-not-set-aside-for-dollar-paren', 'brush-parser/src/tokenizer.rs', [("        let outer_here_state = std::mem::take(&mut self.cross_state.here_state);\n        let outer_here_tags = std::mem::take(&mut self.cross_state.current_here_tags);\n", ""), ("        self.cross_state.here_state = outer_here_state;\n        self.cross_state.current_here_tags = outer_here_tags;\n\n        state.append_char(", "        state.append_char(")]),
+        ('pending-tags-not-put-back-after-dollar-paren', 'brush-parser/src/tokenizer.rs', "        self.cross_state.here_state = outer_here_state;\n        self.cross_state.current_here_tags = outer_here_tags;\n\n        state.append_char(", "        self.cross_state.here_state = outer_here_state;\n        let _ = outer_here_tags;\n\n        state.append_char("),
+        ('here-state-not-put-back-after-dollar-brace', 'brush-parser/src/tokenizer.rs', "                            self.cross_state.here_state = outer_here_state;\n                            self.cross_state.current_here_tags = outer_here_tags;", "                            let _ = outer_here_state;\n                            self.cross_state.current_here_tags = outer_here_tags;"),
+        ('here-state-put-back-before-the-construct-is-read', 'brush-parser/src/tokenizer.rs', [("                            let outer_here_tags =\n                                std::mem::take(&mut self.cross_state.current_here_tags);\n", "                            let outer_here_tags =\n                                std::mem::take(&mut self.cross_state.current_here_tags);\n                            self.cross_state.here_state = outer_here_state;\n"), ("                            self.cross_state.here_state = outer_here_state;\n                            self.cross_state.current_here_tags = outer_here_tags;", "                            self.cross_state.current_here_tags = outer_here_tags;")]),
+    ],
     'U27b': [
         ('character-after-the-terminator-unwrapped', 'brush-parser/src/tokenizer.rs', "                    state.append_char(\n                        self.next_char()?\n                            .ok_or(TokenizerError::UnterminatedExpansion)?,\n                    );", "                    state.append_char(self.next_char()?.unwrap());"),
         ('closing-character-of-the-construct-unwrapped', 'brush-parser/src/tokenizer.rs', "        state.append_char(\n            self.next_char()?\n                .ok_or(TokenizerError::UnterminatedExpansion)?,\n        );\n        Ok(())", "        state.append_char(self.next_char()?.unwrap());\n        Ok(())"),
